@@ -908,6 +908,10 @@ def cor2_list(n, P, opt_present, with_c):
             if not (s == "sensors sign" and P == 1):     # an emptied optional sheet is a valid omission
                 out.append(("drop-row", s, r))
             out.append(("rename-index", s, r))
+    if P >= 2:
+        # same labels, other row order: an index mismatch too (relaxed oracle: ValueError, or a geometry aligned by label)
+        for s in ("points coordinates", "mapping") + (("sensors sign",) if opt_present else ()):
+            out.append(("reorder-rows", s, 0))
     for r in range(n):
         out.append(("name-absent-from-mapping", "mapping", r))
     out.append(("name-absent-from-mapping", "sensors names", 0))
@@ -936,6 +940,8 @@ def apply_cor2(sheets, states, kind, sheet, arg, flat, form, with_c):
         d[sheet] = d[sheet].drop(d[sheet].index[arg])
     elif kind == "rename-index":
         d[sheet] = d[sheet].rename(index={d[sheet].index[arg]: 99})
+    elif kind == "reorder-rows":
+        d[sheet] = d[sheet].iloc[::-1]
     elif kind == "name-absent-from-mapping":
         if sheet == "sensors names":
             d["sensors names"] = names_form(form, list(flat) + ["zz"])
@@ -975,7 +981,12 @@ def judge_cor2(case, t):
     states["constraints"] = 2 if with_c else 0
     d, st = apply_cor2(sheets, states, kind, sheet, arg, flat, form, with_c)
     r, obj = call_geo2(route, d, st)
-    judge_corruption(t, r, case, "geo2", kind, sheet, route, obj)
+    relaxed = None
+    if kind == "reorder-rows":
+        phi = pay(seed)["PHI"][:n, 0]
+        expmap = ref_map_values(cells, flat, phi, ("c1",) if with_c else (), [FIXED_C[:n]], flat)
+        relaxed = lambda o_: geo2_errors(o_, exp, st, phi, expmap)      # noqa: E731  (aligned by label = the uncorrupted geometry)
+    judge_corruption(t, r, case, "geo2", kind, sheet, route, obj, relaxed_ok=relaxed)
     return True
 
 
